@@ -269,6 +269,18 @@ def handle_guard(p):
                 proc = Processor(detector=detector, pipeline=py_pipeline(empty_pipeline()))
                 proc.set(key=f"detector.{sec_name}.{field}", value=x)
             stored = getattr(obj, "_" + field, None)
+        elif path == "obsrun":
+            # one point of a real observation over the field (after a valid first point, so that the run itself works)
+            from pyxel.observation import Observation, ParameterValues
+
+            good = sec[sec_name].get(field)
+            detector = py_detector(det, sec)
+            values = [x] if good is None or same_value(good, x) else [good, x]     # the points of a sweep are distinct
+            obs = Observation(parameters=[ParameterValues(key=f"detector.{sec_name}.{field}", values=values)],
+                              with_dask=bool(p.get("dask")))
+            res = pyxel.run_mode(mode=obs, detector=detector, pipeline=py_pipeline(empty_pipeline()))
+            tree_fingerprint(res)       # forces the computation of every point
+            stored = x
         else:
             raise ValueError(path)
     except Exception as ex:  # noqa: BLE001
